@@ -210,6 +210,13 @@ def cases(tier, seed):
     return out
 
 
+def zero_bound_wiring():
+    """bounds that contain 0, negative and equal entries must reach the optimiser unchanged (recorder in place of minimize)"""
+    from contracts import c18 as _c18
+    r = _c18.replay_fit(None, None)
+    return r['observed'] if r['reproduced'] else []
+
+
 def run(tier='quick', seed=0):
     evals, failures, samples, distinct = 0, [], [], set()
     cs = cases(tier, seed)
@@ -226,6 +233,13 @@ def run(tier='quick', seed=0):
             failures.append({'key': '%s %sLoss fit start=%s' % (c['model'], c['loss'], c['kind']), 'case': c, 'observed': bad[:5]})
         elif len(samples) < 2:
             samples.append(c)
+    try:
+        zb = zero_bound_wiring()
+    except Exception as e:
+        zb = ["raises %s: %s" % (type(e).__name__, e)]
+    evals += 1
+    if zb:
+        failures.append({'key': 'bounds with zero / negative / equal entries reach the optimiser', 'case': {'kind': 'zero-bound-wiring'}, 'observed': zb[:3]})
     return {'evaluations': evals, 'distinct_nontrivial': len(distinct), 'failures': failures, 'samples': samples,
             'rule': 'corpus models of the C06 stand-in (quick: SIR; thorough: SIR, one-state decay, 4-state SEIR, 2-state birth-death), SquareLoss and NormalLoss '
                     '(thorough also GammaLoss, PoissonLoss), 1-3 observed states, noisy data, a different asymmetric box per parameter, starts random / within 1e-3 of a lower or upper '
@@ -239,6 +253,9 @@ def run(tier='quick', seed=0):
 
 def replay(c):
     case = c['case']
+    if case.get('kind') == 'zero-bound-wiring':
+        zb = zero_bound_wiring()
+        return {'reproduced': bool(zb), 'observed': zb[:3], 'input': case}
     try:
         bad, _ = check_case(case)
     except Exception as e:
